@@ -184,6 +184,20 @@ def rot_part(res, rows, rng, tier):
             if not abs(n2 - 1) <= 1e-13 or any(not abs(a - b) <= 1e-13 for a, b in zip(img, tgt)):
                 viol(res, "rotation-from-to", frm=f, to=t, quaternion_norm2=n2, image_of_from=img, wanted=tgt,
                      antiparallel=all(a * norm(t) == -b * norm(f) for a, b in zip(f, t)))
+    # identical and exactly antiparallel vectors with three different components (every choice of the smallest one)
+    for f in itertools.product((-3, -2, -1, 0, 1, 2, 3), repeat=3):
+        if not any(f):
+            continue
+        for scale in (-1.0, -2.5, 1.0):
+            t = [scale * c for c in f]
+            q = Rotation.from_to(list(map(float, f)), t)
+            res["rot_checks"] += 1
+            n2 = q.ix ** 2 + q.iy ** 2 + q.iz ** 2 + q.r ** 2
+            img = apply(mat_of(q), [c / norm(f) for c in f])
+            tgt = [c / norm(t) for c in t]
+            if not abs(n2 - 1) <= 1e-13 or any(not abs(a - b) <= 1e-13 for a, b in zip(img, tgt)):
+                viol(res, "rotation-from-to", frm=f, to=t, quaternion_norm2=n2, image_of_from=img, wanted=tgt, antiparallel=scale < 0)
+                break
     # to_new_axes: newz -> z and the perpendicular part of newx -> +x, also for non-unit / non-orthogonal input
     for z in dirs:
         for x in dirs:
@@ -262,6 +276,18 @@ def frame_part(res, rng, tier):
                 viol(res, "sim-sub", i=i)
             if (e.particles[i].x, e.particles[i].vy) != (2 * a.particles[i].x, 2 * a.particles[i].vy):
                 viol(res, "sim-mul", i=i)
+        # positions and velocities scaled separately (every component), and time reversal: multiply(1, -1) reverses L and keeps the energy
+        g = a.copy()
+        g.multiply(2.0, -0.5)
+        for i in range(n):
+            pa, pg = a.particles[i], g.particles[i]
+            if (pg.x, pg.y, pg.z, pg.vx, pg.vy, pg.vz, pg.m) != (2.0 * pa.x, 2.0 * pa.y, 2.0 * pa.z, -0.5 * pa.vx, -0.5 * pa.vy, -0.5 * pa.vz, pa.m):
+                viol(res, "sim-multiply", i=i, got=[pg.x, pg.y, pg.z, pg.vx, pg.vy, pg.vz], scaled_by=[2.0, -0.5])
+        h = a.copy()
+        h.multiply(1.0, -1.0)
+        La, Lh = a.angular_momentum(), h.angular_momentum()
+        if [Lh[k] for k in range(3)] != [-La[k] for k in range(3)] or h.energy() != a.energy():
+            viol(res, "sim-time-reversal", L=[La[k] for k in range(3)], L_reversed=[Lh[k] for k in range(3)])
         # variational particles under move_to_com: d(x_i - R) = dx_i - dR, dR = sum(m dx + dm (x - R)) / M
         s3 = rebound.Simulation()
         for i in range(n):
